@@ -37,7 +37,7 @@ ASSUMPTIONS = [
     "float32 storage of the note array is the precision of the rebuild comparison",
 ]
 COMPONENTS = {"real": ["partitura.performance (PerformedPart, PerformedNote, adjust_offsets_w_sustain, Performance)", "partitura.io.importmidi.load_performance_midi", "utils.music.seconds_to_midi_ticks", "mido"], "stub": ["SimFS", "independent SMF writer (model/ref_smf.py)"]}
-PROBES = ("meta_only_track", "reclocked", "pedal_extended_note", "restrike_clipped", "illegal_edit_rejected", "threshold_127", "no_pedal_events", "pedal_event_at_release", "overlapping_equal_pitch", "threshold_raised", "performance_wrap", "rebuild")
+PROBES = ("meta_only_track", "part_without_notes", "reclocked", "pedal_extended_note", "restrike_clipped", "illegal_edit_rejected", "threshold_127", "no_pedal_events", "pedal_event_at_release", "overlapping_equal_pitch", "threshold_raised", "performance_wrap", "rebuild")
 
 
 # ----------------------------------------------------------------------------
@@ -96,7 +96,7 @@ def generate(seed, tier, cfg):
         elif x < 0.95:
             ops.append({"k": "rebuild"})
         else:
-            ops.append({"k": "wrap", "extra_tracks": o.choice(((0,), (0, 1), (1, 3))), "meta_track": o.choice((None, None, 5, 2))})
+            ops.append({"k": "wrap", "extra_tracks": o.choice(((0,), (0, 1), (1, 3))), "meta_track": o.choice((None, None, 5, 2)), "pedal_only": o.choice((0, 0, 1, 2, 3))})
     return {"notes": notes, "controls": controls, "ops": ops, "route": cfg, "knobs": {"ppq": k.choice((480, 960, 96, 1)), "mpq": k.choice((500000, 600000, 250000)), "thr0": k.choice((64, 64, 0, 127, 100))}}
 
 
@@ -425,15 +425,26 @@ def execute(case, keep_log=False):
                         other.key_signatures = [{"time": 0.0, "fifths": 2, "mode": "major", "track": op["meta_track"]}]
                         res.probe("meta_only_track")
                     groups_before = [_track_partition(pp), _track_partition(other)]
-                    perf = P.Performance([other, pp] if op.get("meta_track") is not None else [pp, other])
+                    plist = [other, pp] if op.get("meta_track") is not None else [pp, other]
+                    pedal_only = None
+                    if op.get("pedal_only"):
+                        # a pedal recorded on a track of its own, kept as a part without notes
+                        pedal_only = P.PerformedPart([], id="E", controls=[{"type": "sustain_pedal", "number": 64, "time": 0.5, "value": 100, "track": 0}, {"type": "sustain_pedal", "number": 64, "time": 1.5, "value": 0, "track": 0}])
+                        plist.insert(op["pedal_only"] - 1, pedal_only)
+                        res.probe("part_without_notes")
+                    perf = P.Performance(plist)
                     tr = [_tracks(x) for x in (pp, other)]
+                    if pedal_only is not None:
+                        t3 = _tracks(pedal_only)
+                        if t3 & (tr[0] | tr[1]):
+                            res.violation("P7-tracks", "wrap", "the tracks of a part without notes %s collide with those of the other parts %s after Performance()" % (sorted(t3), sorted(tr[0] | tr[1])), site="overlap-empty-part")
                     if tr[0] & tr[1]:
                         res.violation("P7-tracks", "wrap", "track numbers of two parts overlap after Performance(): %s and %s" % (sorted(tr[0]), sorted(tr[1])), site="overlap")
                     groups_after = [_track_partition(pp), _track_partition(other)]
                     if groups_after != groups_before:
                         res.violation("P7-tracks", "wrap", "renumbering tracks changed which notes/controls share a track: %s -> %s" % (groups_before, groups_after), site="partition")
                     # (num_tracks counts the tracks that carry notes, controls or programs)
-                    sounding = sum(len(set(n.get("track", -1) for n in x.notes) | set(c.get("track", -1) for c in x.controls) | set(p.get("track", -1) for p in x.programs)) for x in (pp, other))
+                    sounding = sum(len(set(n.get("track", -1) for n in x.notes) | set(c.get("track", -1) for c in x.controls) | set(p.get("track", -1) for p in x.programs)) for x in plist)
                     if perf.num_tracks != sounding:
                         res.violation("P7-tracks", "wrap", "num_tracks %s but parts use %s distinct tracks for notes, controls and programs" % (perf.num_tracks, sounding), site="num_tracks")
                     outcome = [sorted(tr[0]), sorted(tr[1])]
